@@ -86,6 +86,7 @@ func (f *Future[T]) PipeTo(forwarders vivid.ActorRefs) error {
 	if f.closed.Load() {
 		f.mu.Unlock()
 		// closed 先于结果写入被置位：等待 done（结果写入之后才关闭）再读取 message/err，避免把尚未写入的零值结果转发出去
+		verifhook.Yield("fut.pipe.wait", f)
 		<-f.done
 		verifhook.Yield("fut.pipe.tell", f)
 		f.tellForwarders(forwarders, f.message, f.err)
